@@ -50,10 +50,32 @@
 (* (or command-line parse) whose canonical name is in the set with the     *)
 (* flag is skipped.  That all spellings of one file have one canonical     *)
 (* name is PathNorm's CanonUnique.                                         *)
+(*                                                                         *)
+(* PART 3 - ownership of a command-line file that is reached through an    *)
+(* #include first.  Two headers A and B are named on the command line, A   *)
+(* includes B.  The case ranges over: how B is spelled on the command line *)
+(* (plain / through a symlinked directory / with "./" and "sub/.."), how   *)
+(* A's #include finds it (next to the includer, written "b.h", "./b.h" or  *)
+(* "sub/../b.h"; through -I given as a plain directory, as a symbolic link *)
+(* to it, or as a relative name with ".."), the order of A and B on the    *)
+(* command line, whether the working directory is the headers' directory,  *)
+(* and B's protection (#pragma once / include guard / none).               *)
+(* REFERENCE: a file named on the command line - under any spelling that   *)
+(* denotes it - is the user's own however it is first reached; its         *)
+(* published declarations are exported exactly once (an unprotected file   *)
+(* is read twice and declares everything twice, both times as own).        *)
+(* MECHANISM: _explicit_files holds the names of the command-line files    *)
+(* (canonical since c17-fix-3); handle_include_directive canonicalises the *)
+(* name find_include hands back and looks THAT up (LookupCanonical; FALSE  *)
+(* documents the deviation "membership test before make_canonical()", for  *)
+(* which only a found name that happens to be canonical already matches);  *)
+(* declarations keep the source class of the CPPFile they were read with;  *)
+(* a #pragma once file already in _parsed_files is not read again, so a    *)
+(* wrong class at the first reach is never corrected.                      *)
 (***************************************************************************)
 EXTENDS Naturals, Sequences, FiniteSets, TLC
 
-CONSTANTS EmptyAnglePathIsCwd, ExplicitByCanonical, KeyByCanonical,
+CONSTANTS EmptyAnglePathIsCwd, ExplicitByCanonical, KeyByCanonical, LookupCanonical,
           MaxIncludes      \* bound of part 2
 
 OptDirs == {"I1", "S1", "I2", "S2"}
@@ -65,6 +87,11 @@ Forms == {"quote", "angle"}
 \* spelled with a symbolic link, ".." and repeated slashes ("//" inside the #include text is undefined in C)
 Spellings == {"plain", "dot", "dotdot", "symlink", "abs", "viaI", "cmdline"}
 Guards == {"pragma", "guard", "none"}
+\* part 3
+CmdSpells == {"plain", "symlink", "dots"}
+Reaches == {"incPlain", "incDot", "incDotDot", "Iplain", "Isymlink", "Idotdot"}
+Orders == {"AB", "BA"}
+NoOwn == [cmdSpell |-> "none", reach |-> "none", order |-> "none", cwdHas |-> FALSE]
 
 VARIABLES
   present, cmd, form, noangles, incIsCwd, explicit, explicitViaLink,   \* the case (part 1)
@@ -72,10 +99,11 @@ VARIABLES
   rres, mres,                 \* reference / mechanism result: [dir, src]
   guard, spelled,             \* part 2: protection of the file, spellings included so far
   parsed, pragma, defined,    \* mechanism: keys in _parsed_files, keys with _pragma_once, guard macro defined
-  mcount, rcount              \* contributions counted by mechanism / reference
+  mcount, rcount,             \* contributions counted by mechanism / reference (part 3: database entries)
+  own                         \* part 3: the case [cmdSpell, reach, order, cwdHas] (NoOwn elsewhere)
 
 vars == <<present, cmd, form, noangles, incIsCwd, explicit, explicitViaLink, phase, rres, mres,
-          guard, spelled, parsed, pragma, defined, mcount, rcount>>
+          guard, spelled, parsed, pragma, defined, mcount, rcount, own>>
 
 Range(s) == {s[i] : i \in 1..Len(s)}
 
@@ -154,14 +182,14 @@ InitCase ==
   /\ (explicit = "inc" => ~incIsCwd)
   /\ phase = "case" /\ rres = NotFound /\ mres = NotFound
   /\ guard = "none" /\ spelled = <<>> /\ parsed = {} /\ pragma = {} /\ defined = FALSE
-  /\ mcount = 0 /\ rcount = 0
+  /\ mcount = 0 /\ rcount = 0 /\ own = NoOwn
 
 Resolve ==
   /\ phase = "case"
   /\ rres' = Norm(Ref) /\ mres' = Norm(Mech)
   /\ phase' = "resolved"
   /\ UNCHANGED <<present, cmd, form, noangles, incIsCwd, explicit, explicitViaLink,
-                 guard, spelled, parsed, pragma, defined, mcount, rcount>>
+                 guard, spelled, parsed, pragma, defined, mcount, rcount, own>>
 
 Refines == phase = "resolved" => mres = rres
 
@@ -183,7 +211,7 @@ InitOnce ==
   /\ explicit = "none" /\ explicitViaLink = FALSE
   /\ phase = "once" /\ rres = NotFound /\ mres = NotFound
   /\ guard \in Guards /\ spelled = <<>> /\ parsed = {} /\ pragma = {} /\ defined = FALSE
-  /\ mcount = 0 /\ rcount = 0
+  /\ mcount = 0 /\ rcount = 0 /\ own = NoOwn
 
 \* one inclusion (push_file + parse of the body) or command-line parse of the file under spelling s
 IncludeSpelled(s) ==
@@ -198,12 +226,56 @@ IncludeSpelled(s) ==
               /\ pragma' = IF guard = "pragma" THEN pragma \cup {k} ELSE pragma
               /\ defined' = (defined \/ guard = "guard")
               /\ mcount' = IF guard = "guard" /\ defined THEN mcount ELSE mcount + 1
-  /\ UNCHANGED <<present, cmd, form, noangles, incIsCwd, explicit, explicitViaLink, phase, rres, mres, guard>>
+  /\ UNCHANGED <<present, cmd, form, noangles, incIsCwd, explicit, explicitViaLink, phase, rres, mres, guard, own>>
 
 OnceOnly == phase = "once" => mcount = rcount
 
 ---------------------------------------------------------------------------
-Init == InitCase \/ InitOnce
-Next == Resolve \/ \E s \in Spellings : IncludeSpelled(s)
+(* PART 3: a command-line file first reached through an #include *)
+InitOwn ==
+  /\ present = {} /\ cmd = <<>> /\ form = "quote" /\ noangles = FALSE /\ incIsCwd = FALSE
+  /\ explicit = "none" /\ explicitViaLink = FALSE
+  /\ phase = "own" /\ rres = NotFound /\ mres = NotFound
+  /\ guard \in Guards /\ spelled = <<>> /\ parsed = {} /\ pragma = {} /\ defined = FALSE
+  /\ mcount = 0 /\ rcount = 0
+  /\ own \in [cmdSpell : CmdSpells, reach : Reaches, order : Orders, cwdHas : BOOLEAN]
+
+\* is the name find_include hands back for B (before make_canonical) already B's canonical name?
+FoundIsCanonical ==
+  CASE own.cwdHas -> FALSE                                \* probe 1: the name as written, relative; S_local already
+    [] own.reach = "incPlain" -> TRUE                     \* dirname(canonical includer) + "/b.h"
+    [] own.reach \in {"incDot", "incDotDot"} -> FALSE     \* ... + "/./b.h", ... + "/sub/../b.h"
+    [] own.reach = "Iplain" -> TRUE                       \* make_absolute(-I directory) + "/b.h"
+    [] own.reach = "Idotdot" -> TRUE                      \* make_absolute collapsed the ".." (no symbolic link crossed)
+    [] own.reach = "Isymlink" -> FALSE                    \* make_absolute does not resolve symbolic links
+\* is the name kept in _explicit_files B's canonical name?  ("dots" is collapsed lexically by make_absolute too)
+StoredIsCanonical == ExplicitByCanonical \/ own.cmdSpell # "symlink"
+\* handle_include_directive: _explicit_files.count(<canonical name | name as found>)
+OwnInExplicit == StoredIsCanonical /\ (LookupCanonical \/ FoundIsCanonical)
+IncludeSrc == IF own.cwdHas \/ OwnInExplicit THEN "local" ELSE "alternate"
+
+\* the source classes with which B's declarations enter the parse, in order
+Contrib(incSrc) ==
+  IF own.order = "AB" THEN <<incSrc>> \o (IF guard = "none" THEN <<"local">> ELSE <<>>)
+                      ELSE <<"local">> \o (IF guard = "none" THEN <<incSrc>> ELSE <<>>)
+Entries(c) == Cardinality({i \in 1..Len(c) : c[i] = "local"})     \* exported declarations of one name
+
+ResolveOwn ==
+  /\ phase = "own"
+  /\ mres' = [dir |-> "B", src |-> IncludeSrc] /\ rres' = [dir |-> "B", src |-> "local"]
+  /\ mcount' = Entries(Contrib(IncludeSrc)) /\ rcount' = Entries(Contrib("local"))
+  /\ phase' = "owned"
+  /\ UNCHANGED <<present, cmd, form, noangles, incIsCwd, explicit, explicitViaLink,
+                 guard, spelled, parsed, pragma, defined, own>>
+
+OwnRefines ==
+  phase = "owned" =>
+    /\ mres = rres                                  \* classified as the user's own at the first reach
+    /\ mcount = rcount /\ rcount >= 1               \* exported ...
+    /\ guard # "none" => rcount = 1                 \* ... exactly once when protected
+
+---------------------------------------------------------------------------
+Init == InitCase \/ InitOnce \/ InitOwn
+Next == Resolve \/ ResolveOwn \/ \E s \in Spellings : IncludeSpelled(s)
 Spec == Init /\ [][Next]_vars
 =============================================================================
